@@ -17,10 +17,12 @@ if ! git apply --check "$SRC/patch.diff" 2>/dev/null; then
   BASE=$OKB
 fi
 export CARGO_TARGET_DIR=/tmp/seedcheck/target
+FEAT=$(python3 -c "import json,sys; print(','.join(json.load(open(sys.argv[1])).get('features','').replace(',',' ').split()))" "$SRC/meta.json" 2>/dev/null)
+FARG=""; [ -n "$FEAT" ] && FARG="--features $FEAT"
 cp "$SRC/demo.rs" tests/seeded_demo.rs
-cargo test --offline --test seeded_demo > /tmp/seedcheck/clean.log 2>&1; CLEAN=$?
+cargo test --offline $FARG --test seeded_demo > /tmp/seedcheck/clean.log 2>&1; CLEAN=$?
 git apply "$SRC/patch.diff"
-cargo test --offline --test seeded_demo > /tmp/seedcheck/mut.log 2>&1; MUT=$?
+cargo test --offline $FARG --test seeded_demo > /tmp/seedcheck/mut.log 2>&1; MUT=$?
 rm -f tests/seeded_demo.rs
 cargo nextest run --workspace --no-fail-fast --offline > /tmp/seedcheck/suite.log 2>&1
 SUITE=$(grep -E "Summary" /tmp/seedcheck/suite.log | tail -1)
